@@ -601,7 +601,8 @@ def mol_cases(m, tag, fam, with_ref=True, max_ref_atoms=26, max_ref_rings=8):
     from chython.algorithms.rings import _skin_graph
     sk_b = graph_term(_skin_graph(m._bonds))
     sk_n = graph_term(_skin_graph(nsc))
-    defs = (f'Definition m{i} : mol := {mol_term(m)}.\n'
+    defs = (f'(* {tag.replace("*", "?").replace("(", "<").replace(")", ">")} *)\n'
+            f'Definition m{i} : mol := {mol_term(m)}.\n'
             f'Definition g{i} : graph := graph_of_not_special m{i}.\n'
             f'Definition rs{i} : list ring := {zll(sssr)}.\n'
             f'Definition sk{i} : pyres graph := Ok {sk_n}.')
@@ -828,6 +829,95 @@ def search_one(ck, m, tag, fam, ref_sizes=None, stats=None):
     return None if d else sizes
 
 
+def ring_views(m):
+    """what the property observes, as comparable values (labels are read as stored, NOT recomputed)"""
+    return {'sssr': sorted(tuple(r) for r in m.sssr), 'rings_count': m.rings_count,
+            'components': sorted(sorted(c) for c in m.connected_components),
+            'atoms_rings_sizes': {n: sorted(v) for n, v in sorted(m.atoms_rings_sizes.items())},
+            'atom marks': [(n, a.in_ring, sorted(a.ring_sizes)) for n, a in sorted(m._atoms.items())],
+            'bond marks': sorted((min(n, k), max(n, k), bd.in_ring) for n, k, bd in m.bonds())}
+
+
+def edit_search(ck, m0, tag, rng, stats):
+    """the cached ring views after an edit through the public API == those of the same molecule built from scratch
+    (state clause of the property: sssr / atoms_rings / rings_count / components are cached and must not survive an edit
+    of the bonds); also copy(keep_sssr=True, keep_components=True)"""
+    from chython import MoleculeContainer
+    m = m0.copy()
+    try:
+        ring_views(m)       # fill the cache
+    except Exception:
+        return
+    atoms = list(m._atoms)
+    bonds = [(n, k) for n, k, _ in m.bonds()]
+    free = [(a, c) for a, c in itertools.combinations(atoms, 2) if c not in m._bonds[a]]
+    ops = []
+    if bonds:
+        ops += ['delete_bond', 'delete_bond']
+    if free:
+        ops += ['add_bond', 'add_bond', 'add_special']
+    if len(atoms) > 1:
+        ops += ['delete_atom']
+    ops += ['add_atom+bonds', 'remap', 'copy-keep']
+    op = rng.choice(ops)
+    stats['edit:' + op] += 1
+    what = op
+    try:
+        if op == 'delete_bond':
+            a, c = rng.choice(bonds)
+            m.delete_bond(a, c)
+            what = f'delete_bond({a}, {c})'
+        elif op in ('add_bond', 'add_special'):
+            a, c = rng.choice(free)
+            m.add_bond(a, c, 8 if op == 'add_special' else 1)
+            what = f'add_bond({a}, {c}, {8 if op == "add_special" else 1})'
+        elif op == 'delete_atom':
+            a = rng.choice(atoms)
+            m.delete_atom(a)
+            what = f'delete_atom({a})'
+        elif op == 'add_atom+bonds':
+            n = m.add_atom('C')
+            nb = rng.sample(atoms, min(len(atoms), rng.choice([1, 2, 2, 3])))
+            for k in nb:
+                m.add_bond(n, k, 1)
+            what = f'add_atom C as {n} bonded to {nb}'
+        elif op == 'remap':
+            new = rng.sample(range(1, 2 * len(atoms) + 1), len(atoms))
+            mp = dict(zip(atoms, new))
+            m.remap(mp)
+            what = f'remap({mp})'
+        else:
+            m = m.copy(keep_sssr=True, keep_components=True)
+            what = 'copy(keep_sssr=True, keep_components=True)'
+    except Exception as e:     # valence errors etc. are not this property's business
+        stats[f'edit raised {type(e).__name__}'] += 1
+        return
+    fresh = MoleculeContainer()
+    for n, a in m._atoms.items():
+        fresh.add_atom(a.copy(), n, _skip_calculation=True)
+    for n, k, bd in m.bonds():
+        fresh.add_bond(n, k, int(bd), _skip_calculation=True)
+    fresh.calc_labels()
+    ck.case(('edit', tag, what), nontrivial=True)
+    try:
+        got, exp = ring_views(m), ring_views(fresh)
+    except Exception as e:
+        stats[f'edit views raised {type(e).__name__}'] += 1
+        return
+    fam = gap_families(plain_adj(fresh)) or gap_families(plain_adj(m0))
+    for key in got:
+        if got[key] != exp[key]:
+            if key in ('sssr', 'atoms_rings_sizes', 'atom marks') and (fam or sorted(map(len, got['sssr'])) == sorted(map(len, exp['sssr']))) \
+                    and basis_defect(plain_adj(m), [tuple(r) for r in m.sssr]) is None:
+                # another equally valid basis (the selection depends on dict / set order): not a stale cache
+                stats['edit: different but valid basis of the same sizes'] += 1
+                continue
+            inp = {'tag': tag, 'start atoms': list(m0._atoms), 'start bonds': [(n, k, int(bd)) for n, k, bd in m0.bonds()], 'edit': what}
+            ck.counterexample(f'stale-after-edit:{op}:{key}', f'after {op} the cached / stored ring view `{key}` differs from the molecule rebuilt from scratch',
+                              inp, got[key], exp[key], 'rebuild from scratch with the same atoms and bonds')
+            return
+
+
 # =====================================================================================================
 
 def input_stream(ck):
@@ -1030,6 +1120,8 @@ def run(ck):
                 except Exception as e:
                     stats[f'not sent to Coq ({type(e).__name__})'] += 1
 
+    erng = random.Random(f'{ck.seed}:c06:edits')
+
     # ---- exhaustive small graphs through the public API (add_atom / add_bond)
     for n in range(1, 7 if quick else 7):
         for es, adj in connected_graphs(n):
@@ -1060,6 +1152,9 @@ def run(ck):
     # ---- generated / corpus / test-set molecules
     for tag, m in input_stream(ck):
         handle(tag, m, to_coq=True, renumber=2 if quick else 3)
+        if len(m) <= 60:
+            for t in range(2):
+                edit_search(ck, m, tag, erng, stats)
     timing['generated / corpus / test-set molecules (python)'] = round(time.time() - t0, 1)
     t0 = time.time()
     # ---- thorough: the exhaustive domain of the property text, in parallel on the adjacency level
